@@ -53,6 +53,7 @@ OUTCOME = {0: "accepted", 1: "rejected: incomplete plan", 2: "rejected: steps wa
            3: "rejected: option conflict (Duplicate key ... conflicting values)", 4: "rejected: options validator",
            5: "rejected: TypeError while merging options", 6: "rejected: duplicate feature setup", 7: "rejected: no feature group"}
 KF_AMBIGUOUS = "C15-untyped-joins-first-typed-group"
+KF_ERRCLASS = "C04-nondet-option-error-reported"
 LAST_INFO: Dict[str, Any] = {}
 OBS: Dict[str, Any] = {}
 _installed = [False]
@@ -271,6 +272,111 @@ def gen_o_run(rng: random.Random, cfw: str = "PyArrowTable") -> Dict[str, Any]:
     return {"groups": groups, "request": req}
 
 
+def gen_o_typed(rng: random.Random, cfw: str = "PyArrowTable") -> Dict[str, Any]:
+    """Typed / untyped mixes: 1-2 feature groups whose features are requested (and used as inputs) with declared types on FEW
+    distinct options, so that one group is split by type, untyped features meet typed ones of one or two types (C15's ambiguity),
+    and - declared types do not propagate - the splits of ONE group may require each other (rejected: cycle)."""
+    cols = {c: [rng.randrange(0, 20) for _ in range(3)] for c in ["a", "b"][: rng.randrange(1, 3)]}
+    if rng.random() < 0.2:
+        # ONE group; x, y from the root; fx <- x (declared T1), fy <- y (declared T2); requested fx : T2, fy : T1 (+ extras): the
+        # split {x, fy} (T1) requires y, the split {y, fx} (T2) requires x
+        t1, t2 = rng.sample(TYPES, 2)
+        src = rng.choice(list(cols))
+        f = {"x": _feat([src], rng), "y": _feat([src], rng), "fx": {**_feat(["x"], rng), "input_type": {"x": t1}},
+             "fy": {**_feat(["y"], rng), "input_type": {"y": t2}}}
+        req = [{"name": "fx", "type": t2}, {"name": "fy", "type": t1}]
+        if rng.random() < 0.5:
+            req.append({"name": rng.choice(["x", "y"])})
+        if rng.random() < 0.3:
+            req[0]["opt"] = {"k1": 1}       # other options: no cycle any more
+        rng.shuffle(req)
+        return {"groups": [{"name": "R0", "kind": "root", "cfw": cfw, "cols": cols}, {"name": "D1", "kind": "derived", "cfw": cfw, "features": f}],
+                "request": req}
+    n_groups = rng.randrange(1, 3)
+    feats: List[Dict[str, Any]] = [dict() for _ in range(n_groups)]
+    order = list(cols)
+    types = rng.sample(TYPES, rng.randrange(1, 3))
+    for i in range(rng.randrange(2, 7)):
+        gi = rng.randrange(n_groups)
+        ins = rng.sample(order, rng.randrange(1, min(2, len(order)) + 1))
+        d = _feat(ins, rng)
+        for x in ins:
+            if rng.random() < 0.45:
+                d.setdefault("input_type", {})[x] = rng.choice(types)
+        feats[gi][f"f{i + 1}"] = d
+        order.append(f"f{i + 1}")
+    groups: List[Dict[str, Any]] = [{"name": "R0", "kind": "root", "cfw": cfw, "cols": cols}]
+    for gi, f in enumerate(feats):
+        if f:
+            groups.append({"name": f"D{gi + 1}", "kind": "derived", "cfw": cfw, "features": f})
+    derived = [n for n in order if n not in cols]
+    optv = [None, None, {"k1": 1}] if rng.random() < 0.5 else [None]
+    req, seen = [], set()
+    for name in rng.sample(order, min(len(order), rng.randrange(2, 6))):
+        r: Dict[str, Any] = {"name": name}
+        o = rng.choice(optv)
+        if o:
+            r["opt"] = dict(o)
+        if rng.random() < 0.6:
+            r["type"] = rng.choice(types)
+        sig = json.dumps(r, sort_keys=True)
+        if sig not in seen:
+            seen.add(sig)
+            req.append(r)
+    if derived and rng.random() < 0.4:
+        # the same name once more with another type / untyped: typed and untyped instances of one name
+        extra = {"name": rng.choice(derived)}
+        if rng.random() < 0.5:
+            extra["type"] = rng.choice(TYPES)
+        if json.dumps(extra, sort_keys=True) not in seen:
+            req.append(extra)
+    return {"groups": groups, "request": req}
+
+
+def gen_o_clash(rng: random.Random, cfw: str = "PyArrowTable") -> Dict[str, Any]:
+    """Small requests around the error classes of the graph stage: a key that is a group option on one side and a context option
+    on the other (with equal or different values), propagated context keys meeting group keys of the inputs, protected-key lists
+    (on the input: protects; on the consumer: does not), a protected-key entry that cannot be iterated, several failing inputs."""
+    cols = {c: [1, 2, 3] for c in ["a", "b"]}
+    k = rng.choice(["k1", "c1"])
+    v = rng.choice([1, 2])
+    other = v if rng.random() < 0.5 else 3 - v
+    ins = rng.sample(["a", "b"], rng.randrange(1, 3))
+    d = _feat(ins, rng)
+    for x in ins:
+        r = rng.random()
+        if r < 0.35:
+            d.setdefault("input_opt", {})[x] = {k: other}
+        elif r < 0.6:
+            d.setdefault("input_ctx", {})[x] = {k: other}
+        elif r < 0.75:
+            d.setdefault("input_opt", {})[x] = {k: other, CHAINER: rng.choice([[k], ["zz"], 5, "k1"])}
+        elif r < 0.85:
+            d.setdefault("input_ctx", {})[x] = {k: other}
+            d.setdefault("input_prop", {})[x] = [k]
+    feats = {"f1": d}
+    if rng.random() < 0.5:
+        feats["f2"] = {**_feat(["f1"], rng), **({"input_opt": {"f1": {k: other}}} if rng.random() < 0.5 else {})}
+    req: Dict[str, Any] = {"name": rng.choice(list(feats))}
+    r = rng.random()
+    if r < 0.45:
+        req["opt"] = {k: v}
+    elif r < 0.8:
+        req["opt"] = {"k2": 1}
+        req["ctx"] = {k: v}
+        if rng.random() < 0.6:
+            req["prop"] = [k]
+    else:
+        req["opt"] = {k: v, CHAINER: [k]}
+    return {"groups": [{"name": "R0", "kind": "root", "cfw": cfw, "cols": cols}, {"name": "D1", "kind": "derived", "cfw": cfw, "features": feats}],
+            "request": [req]}
+
+
+def gen_any(rng: random.Random) -> Dict[str, Any]:
+    r = rng.random()
+    return gen_o(rng) if r < 0.55 else (gen_o_typed(rng) if r < 0.8 else gen_o_clash(rng))
+
+
 def _base(feats: Dict[str, Dict[str, Any]], cols: Sequence[str] = ("a",), cfw: str = "PyArrowTable") -> List[Dict[str, Any]]:
     groups: List[Dict[str, Any]] = [{"name": "R0", "kind": "root", "cfw": cfw, "cols": {c: [1, 2, 3] for c in cols}}]
     for gname, f in feats.items():
@@ -305,6 +411,15 @@ def witness_specs() -> Dict[str, Dict[str, Any]]:
     # a group key of the consumer is a context key of the input: validator error (code 4)
     w["group_vs_context"] = {"groups": _base({"D1": {"f1": {**_feat(["a"]), "input_ctx": {"a": {"k1": 1}}}}}),
                              "request": [{"name": "f1", "opt": {"k1": 1}}]}
+    # ... the same with equal values: the conflict test passes, the validator of update_with_protected_keys raises (code 4)
+    w["propagated_vs_group"] = {"groups": _base({"D1": {"f1": {**_feat(["a"]), "input_opt": {"a": {"c1": 7}}}}}),
+                                "request": [{"name": "f1", "opt": {"k1": 1}, "ctx": {"c1": 7}, "prop": ["c1"]}]}
+    # feature_chainer_parser_key of the input holds something that cannot be iterated: TypeError (code 5)
+    w["chainer_not_iterable"] = {"groups": _base({"D1": {"f1": {**_feat(["a"]), "input_opt": {"a": {CHAINER: 5}}}}}),
+                                 "request": [{"name": "f1", "opt": {"k1": 1}}]}
+    # two failing inputs with different error classes: which one is reported depends on the iteration order of input_features()
+    w["two_errors"] = {"groups": _base({"D1": {"f1": {**_feat(["a", "b"]), "input_opt": {"a": {"k1": 2}}, "input_ctx": {"b": {"k1": 1}}}}}, cols=("a", "b")),
+                       "request": [{"name": "f1", "opt": {"k1": 1}}]}
     w["duplicate"] = {"groups": _base({"D1": {"f1": _feat(["a"])}}),
                       "request": [{"name": "f1", "opt": {"k1": 1}}, {"name": "f1", "opt": {"k1": 1}}]}
     # typed / untyped mix in one group: INT64, DOUBLE and an untyped feature on the same options (C15's ambiguity)
@@ -402,17 +517,26 @@ def spec_opt_term(group: Optional[Dict[str, Any]], ctx: Optional[Dict[str, Any]]
 
 
 def defs_term(spec: Dict[str, Any], t: Tables) -> str:
-    out = []
+    """the definitions in a topological order (inputs first): what odefs_okb checks; the model looks names up, the order of the
+    list means nothing to it"""
+    items: Dict[str, Tuple[str, List[str]]] = {}
     for g in spec["groups"]:
         gi, ci = cq_nat(t.group_idx[g["name"]]), cq_nat(t.cfw_idx[g["cfw"]])
         if g["kind"] == "root":
             for c in g["cols"]:
-                out.append(f"{{| od_name := {cq_str(c)}; od_grp := {gi}; od_cfw := {ci}; od_ins := [] |}}")
+                items[c] = (f"{{| od_name := {cq_str(c)}; od_grp := {gi}; od_cfw := {ci}; od_ins := [] |}}", [])
         else:
             for n, d in g["features"].items():
                 ins = cq_list(f"{{| oi_name := {cq_str(i)}; oi_opt := {spec_opt_term(d.get('input_opt', {}).get(i), d.get('input_ctx', {}).get(i), d.get('input_prop', {}).get(i))}; "
                               f"oi_ty := {t.ty(d.get('input_type', {}).get(i))} |}}" for i in d["inputs"])
-                out.append(f"{{| od_name := {cq_str(n)}; od_grp := {gi}; od_cfw := {ci}; od_ins := {ins} |}}")
+                items[n] = (f"{{| od_name := {cq_str(n)}; od_grp := {gi}; od_cfw := {ci}; od_ins := {ins} |}}", list(d["inputs"]))
+    out, placed, todo = [], set(), list(items)
+    while todo:
+        ready = [n for n in todo if all(i in placed or i not in items for i in items[n][1])] or todo[:1]
+        for n in ready:
+            out.append(items[n][0])
+            placed.add(n)
+            todo.remove(n)
     return cq_list(out)
 
 
@@ -575,6 +699,18 @@ def run_values(spec: Dict[str, Any], o: Dict[str, Any], timeout: float = 15.0) -
         return obj[k]
     if any(obj_of(k) is None for k in range(len(graph))):
         return {"status": "skipped", "what": "a consumer reads two option instances of the root (needs a Link)"}
+    from mloda.core.core.step.feature_group_step import FeatureGroupStep as _FGS
+    written: Dict[Tuple[Optional[int], str], int] = {}
+    for si, st in enumerate(sess.engine.execution_planner):
+        # one step works on ONE object: features of one split whose inputs live on different root instances would need a Link too
+        if isinstance(st, _FGS) and len({obj_of(pos[f.uuid]) for f in st.features.features}) != 1:
+            return {"status": "skipped", "what": "the features of one step live on different data objects (needs a Link)"}
+        # two option instances of one name computed by two steps on ONE object (an option added on an input edge that the
+        # consumer already carries) give two columns of that name on one table: outside the fragment of the value check
+        if isinstance(st, _FGS):
+            for f in st.features.features:
+                if f.get_name() not in root["cols"] and written.setdefault((obj_of(pos[f.uuid]), f.get_name()), si) != si:
+                    return {"status": "skipped", "what": "two steps write a column of the same name on one data object"}
     r = run_observed(sess, timeout=timeout)
     if r["status"] != "ok":
         return {"status": r["status"], "what": f"SYNC run of an accepted O-fragment plan: {r['status']} ({str(r.get('exc'))[-200:]})"}
@@ -684,6 +820,7 @@ def check_plans(specs: List[Dict[str, Any]], rep_prefix: str, hash_seeds: Sequen
         bad_cov = failing("planO_cov", "model_req_covers_O")
         bad_st = failing("planO_struct", "model_struct_O")
         bad_iff = failing("planO_iff", "model_accept_iff_wf_O")
+        bad_hyp = failing("planO_hyps", "model_hyps_O")
         amb = set(range(len(terms))) - set(failing("planO_amb", "model_amb_O"))
         plain = set(range(len(terms))) - set(failing("planO_plain", "model_plain_O"))
         amb_specs = {origin[k][0] for k in amb}
@@ -704,7 +841,9 @@ def check_plans(specs: List[Dict[str, Any]], rep_prefix: str, hash_seeds: Sequen
                                                                "outcome although the request is outside kf_ambiguous_O"),
                                 ("model_req_covers_O", bad_cov, "model plan does not require the ancestor closure (contradicts PlannerO_plan_req_covers)"),
                                 ("model_struct_O", bad_st, "model plan violates wf_struct (contradicts PlannerO_plan_struct)"),
-                                ("model_accept_iff_wf_O", bad_iff, "model accepts a plan that is not well formed or rejects a well-formed one")):
+                                ("model_accept_iff_wf_O", bad_iff, "model accepts a plan that is not well formed or rejects a well-formed one"),
+                                ("model_hyps_O", bad_hyp, "the generated request does not satisfy the hypotheses of the request-level theorems "
+                                                          "(odefs_okb / decl_okb / one_cfwb)")):
             for k in lst:
                 if k in bad:
                     continue
@@ -723,12 +862,19 @@ def check_plans(specs: List[Dict[str, Any]], rep_prefix: str, hash_seeds: Sequen
         sigs = {rname: obs[k].get("sig") for rname, obs in runs if "error" not in obs[k]}
         if len(set(sigs.values())) > 1:
             n_nondet += 1
-            known = k in amb_specs
             outs = sorted({json.loads(v)[0] if v and v.startswith("[") else v for v in sigs.values()}, key=str)
-            out.append({"spec": s, "stage": "determinism", "run": "all", "known": KF_AMBIGUOUS if known else None,
+            known = None
+            if all(isinstance(x, str) and x in ("rejected:3", "rejected:4", "rejected:5") for x in outs):
+                known = KF_ERRCLASS
+            elif k in amb_specs and all(x in (0, 2) for x in outs):     # the plan of a rejected request is observed too
+                known = KF_AMBIGUOUS
+            out.append({"spec": s, "stage": "determinism", "run": "all", "known": known,
                         "what": f"preparing the same O-fragment request gives different plans / outcomes between preparations ({outs}); "
-                                + ("inside kf_ambiguous_O (an untyped feature next to typed features of two types: PlannerO_plan_deterministic_refuted)"
-                                   if known else "outside kf_ambiguous_O: contradicts PlannerO_plan_deterministic_partial"),
+                                + ("inside kf_ambiguous_O (an untyped feature next to typed features of two types: PlannerO_share_iff_refuted)"
+                                   if known == KF_AMBIGUOUS else
+                                   "every preparation is rejected while the graph is built, with different errors (two inputs fail in "
+                                   "different ways: PlannerO_error_class_refuted)" if known == KF_ERRCLASS else
+                                   "outside kf_ambiguous_O: contradicts PlannerO_plan_deterministic_partial"),
                         "sigs": sigs})
     info["nondeterministic"] = n_nondet
     # SYNC runs of the run sample
@@ -791,7 +937,7 @@ def main(argv: List[str]) -> int:
     seed = int(argv[2]) if len(argv) > 2 else 0
     n_run = int(argv[3]) if len(argv) > 3 else 20
     rng = random.Random(seed)
-    specs = list(witness_specs().values()) + [gen_o(rng) for _ in range(n)]
+    specs = list(witness_specs().values()) + [gen_any(rng) for _ in range(n)]
     pr = vlib.build_props("PlannerO")
     print("Props/PlannerO.v:", "ok" if pr.ok else "BROKEN", f"{pr.discharged}/{pr.obligations} statements,", sorted(set(pr.assumptions)))
     dis = check_plans(specs, "PlannerO", hash_seeds=(1, 2), run_specs=[gen_o_run(rng) for _ in range(n_run)], run_timeout=8.0)
